@@ -174,6 +174,9 @@ def bounded_threads_and_interleaving(tier, seed):
     t0 = time.time()
 
     def shot(k):
+        if k == 4:      # smooth bore, no bullet dimensions: nothing of an earlier shot's spin data may survive
+            return P.Shot(P.Weapon(P.Unit.Inch(2), 0), P.Ammo(P.DragModel(0.25, P.TableG1), P.Unit.FPS(1400)),
+                          winds=[P.Wind(P.Unit.MPH(4), P.Unit.Degree(90))])
         return P.Shot(P.Weapon(P.Unit.Inch(2), P.Unit.Inch(10 + k), P.Unit.Mil(1 + k)),
                       P.Ammo(P.DragModel(0.2 + 0.05 * k, P.TableG7, P.Unit.Grain(150), P.Unit.Inch(0.308), P.Unit.Inch(1.2)),
                              P.Unit.FPS(2500 + 100 * k)),
@@ -185,7 +188,7 @@ def bounded_threads_and_interleaving(tier, seed):
         return [tuple(float(getattr(r, f).raw_value) if hasattr(getattr(r, f), 'raw_value') else getattr(r, f)
                       for f in r._fields) for r in tr]
     bad = None
-    ref = [rows(P.Calculator(), shot(k)) for k in range(4)]
+    ref = [rows(P.Calculator(), shot(k)) for k in range(5)]
     used = P.Calculator()
     for k in (2, 0, 3):
         rows(used, shot(k))
@@ -193,7 +196,7 @@ def bounded_threads_and_interleaving(tier, seed):
         used.fire(P.Shot(P.Weapon(2, 12), P.Ammo(P.DragModel(0.05, P.TableG1), P.Unit.FPS(300))), P.Unit.Yard(3000), P.Unit.Yard(100))
     except P.RangeError:
         pass
-    for k in range(4):
+    for k in (4, 0, 1, 4, 2, 3):
         if rows(used, shot(k)) != ref[k] or rows(used, shot(k)) != ref[k]:
             bad = f'long-used calculator differs from a fresh one on shot {k}'
     out = {}
